@@ -352,6 +352,141 @@ Fixpoint ser_value (ws : bool) (t : ctype) (v : cval) {struct t} : sres :=
       match t with TNative NVarint => set_value raw | _ => Err SE_MismatchedType end
   end.
 
+(* ====================================================================================== *)
+(* 4b. The repaired vector writer (F2 fix PROPOSAL - not the code of /repo)                  *)
+(* ====================================================================================== *)
+(* Minimal change, no new public API: `serialize_next_constant_length_elem` and
+   `serialize_next_variable_length_elem` serialise the element into a scratch buffer through a
+   SIZED writer (`CellWriter::new(&mut element_buffer)`, as the variable-length path already does
+   with a size-less one), read the 4-byte length prefix back and
+     - refuse a negative prefix (set_null / set_unset: a vector element cannot be null or unset),
+     - for a fixed-width element type refuse a length different from `type_size_for_vector`
+       (set_value(&[]): Empty; any carrier that writes another width),
+     - otherwise append the contents (fixed width) or unsigned-vint length + contents.
+   Everything else is unchanged.  [ser_value_fixed] is [ser_value] with that one change;
+   Props/C01.v proves that it only removes outputs (C01_fixed_refines), that what it accepts has no
+   vector hole (C01_fixed_no_hole) and hence round-trips and conforms without the F2 class. *)
+Definition vec_fixed_elem (size : N) (f : cval -> sres) (x : cval) : sres :=
+  rbind (f x) (fun b => if blen b =? size then Ok b else Err SE_VectorLen).
+
+Definition ser_vector_fixed (ws : bool) (size : option N) (dim : N) (f : cval -> sres) (l : list cval) : sres :=
+  if negb (N.of_nat (List.length l) =? dim) then Err SE_VectorLen else
+  rbind (ser_concat (match size with Some s => vec_fixed_elem s f | None => vec_var_elem f end) l) (finish ws).
+
+Fixpoint ser_value_fixed (ws : bool) (t : ctype) (v : cval) {struct t} : sres :=
+  match v with
+  (* <String as SerializeValue>: exact_type_check!(typ, Ascii, Text); no ASCII validation *)
+  | CAscii s | CText s =>
+      match t with TNative NAscii | TNative NText => set_value s | _ => Err SE_MismatchedType end
+  | CBoolean b =>
+      match t with TNative NBoolean => Ok [if b then 1 else 0] | _ => Err SE_MismatchedType end
+  | CBlob b =>
+      match t with TNative NBlob => set_value b | _ => Err SE_MismatchedType end
+  | CCounter z =>
+      match t with TNative NCounter => Ok (enc_signed 8 z) | _ => Err SE_MismatchedType end
+  (* CqlDecimal: value builder; scale.to_be_bytes() then the raw bytes *)
+  | CDecimal scale raw =>
+      match t with TNative NDecimal => finish ws (enc_signed 4 scale ++ raw) | _ => Err SE_MismatchedType end
+  | CDate d =>
+      match t with TNative NDate => Ok (be_enc 4 d) | _ => Err SE_MismatchedType end
+  | CDouble bits =>
+      match t with TNative NDouble => Ok (be_enc 8 bits) | _ => Err SE_MismatchedType end
+  (* CqlDuration: vint(months as i64) vint(days as i64) vint(nanoseconds), at most 27 bytes *)
+  | CDuration m d n =>
+      match t with
+      | TNative NDuration => Ok (vint_encode m ++ vint_encode d ++ vint_encode n)
+      | _ => Err SE_MismatchedType
+      end
+  | CEmpty => if supports_empty t then Ok [] else Err SE_NotEmptyable
+  | CFloat bits =>
+      match t with TNative NFloat => Ok (be_enc 4 bits) | _ => Err SE_MismatchedType end
+  | CInt z =>
+      match t with TNative NInt => Ok (enc_signed 4 z) | _ => Err SE_MismatchedType end
+  | CBigInt z =>
+      match t with TNative NBigInt => Ok (enc_signed 8 z) | _ => Err SE_MismatchedType end
+  | CTimestamp z =>
+      match t with TNative NTimestamp => Ok (enc_signed 8 z) | _ => Err SE_MismatchedType end
+  | CInet b =>
+      match t with TNative NInet => Ok b | _ => Err SE_MismatchedType end
+  (* <Vec<CqlValue> as SerializeValue>: List, Set and Vector values all take this path, and the
+     CQL type alone decides between serialize_sequence and serialize_vector *)
+  | CList l | CSet l | CVector l =>
+      match t with
+      | TList e | TSet e => ser_sequence ws (ser_value_fixed true e) l
+      | TVector e dim =>
+          ser_vector_fixed ws (type_size e) dim (ser_value_fixed true e) l
+      | _ => Err SE_NotSetOrList
+      end
+  | CMap l =>
+      match t with
+      | TMap k e => ser_mapping ws (ser_value_fixed true k) (ser_value_fixed true e) l
+      | _ => Err SE_NotMap
+      end
+  (* serialize_udt: fields are matched BY NAME; absent fields are written as null; a value field
+     that the type does not have is an error, reported after the fields were written *)
+  | CUdt ks nm fields =>
+      match t with
+      | TUdt ks' nm' fts =>
+          if negb (bytes_eqb ks ks' && bytes_eqb nm nm') then Err SE_UdtNameMismatch else
+          rbind ((fix go (fts : list (name * ctype)) (st : list (name * option cval)) {struct fts} : sres :=
+                    match fts with
+                    | [] => if is_nil st then Ok [] else Err SE_NoSuchFieldInUdt
+                    | (fname, ft) :: r =>
+                        rbind (sub_sized_opt (ser_value_fixed true ft) (udt_field_value fname st)) (fun b =>
+                        rbind (go r (remove_name fname st)) (fun bs => Ok (b ++ bs)))
+                    end) fts fields)
+                (finish ws)
+      | _ => Err SE_NotUdt
+      end
+  | CSmallInt z =>
+      match t with TNative NSmallInt => Ok (enc_signed 2 z) | _ => Err SE_MismatchedType end
+  | CTinyInt z =>
+      match t with TNative NTinyInt => Ok (enc_signed 1 z) | _ => Err SE_MismatchedType end
+  | CTime z =>
+      match t with TNative NTime => Ok (enc_signed 8 z) | _ => Err SE_MismatchedType end
+  | CTimeuuid b =>
+      match t with TNative NTimeuuid => Ok b | _ => Err SE_MismatchedType end
+  (* CqlValue::Tuple: more values than types is an error, fewer is allowed (zip stops) *)
+  | CTuple l =>
+      match t with
+      | TTuple ts =>
+          if (List.length ts <? List.length l)%nat then Err SE_TupleWrongCount else
+          rbind ((fix go (ts : list ctype) (l : list (option cval)) {struct ts} : sres :=
+                    match ts, l with
+                    | et :: ts', ox :: l' =>
+                        rbind (sub_sized_opt (ser_value_fixed true et) ox) (fun b =>
+                        rbind (go ts' l') (fun bs => Ok (b ++ bs)))
+                    | _, _ => Ok []
+                    end) ts l)
+                (finish ws)
+      | _ => Err SE_NotTuple
+      end
+  | CUuid b =>
+      match t with TNative NUuid => Ok b | _ => Err SE_MismatchedType end
+  | CVarint raw =>
+      match t with TNative NVarint => set_value raw | _ => Err SE_MismatchedType end
+  end.
+
+
+Definition ser_cell_fixed (t : ctype) (c : cell) : sres :=
+  match c with
+  | CNull => Ok null_marker
+  | CUnset => Ok unset_marker
+  | CVal v => rbind (ser_value_fixed true t v) (fun b => Ok (framed b))
+  end.
+
+(* typed carriers with cells as elements bound to a vector: a null / unset element is refused *)
+Definition ser_vector_cells_fixed (e : ctype) (dim : N) (cells : list cell) : sres :=
+  if negb (N.of_nat (List.length cells) =? dim) then Err SE_VectorLen else
+  let elem := fun c => match c with
+                       | CNull | CUnset => Err SE_VectorLen
+                       | CVal v => match type_size e with
+                                   | Some s => vec_fixed_elem s (ser_value_fixed true e) v
+                                   | None => vec_var_elem (ser_value_fixed true e) v
+                                   end
+                       end in
+  rbind (ser_concat elem cells) (fun b => rbind (finish true b) (fun b => Ok (framed b))).
+
 (* What a CellWriter with flag [ws] receives for a bind marker / element of type [t].
    set_null / set_unset append the 4 marker bytes WHATEVER the flag says (writers.rs l.105-115);
    with ws = false (element of a vector) the marker bytes become element data. *)
